@@ -883,12 +883,16 @@ func (x *X) kill() (leaked int) {
 		}
 	}
 	for i := 0; i < x.nthreads; i++ {
-		if x.threads[i].status != stDone {
+		if t := x.threads[i]; t.status != stDone {
 			leaked++
+			LeakKinds[fmt.Sprintf("%s/st%d/%s", t.Name, t.status, opNames[t.opKind])]++
 		}
 	}
 	return
 }
+
+// LeakKinds: what the threads counted in LeakedTotal were doing (name/status/last operation).
+var LeakKinds = map[string]int64{}
 
 // ---------------------------------------------------------------------------
 // explorer
@@ -991,6 +995,7 @@ func (e *Explorer) RunOne(prefix []int, dupIdx int, dupSeen []int) *Result {
 	res.Log = x.Log
 	e.Steps += x.steps
 	e.Leaked += res.Leaked
+	LeakedTotal += int64(res.Leaked)
 	return res
 }
 
@@ -1025,6 +1030,10 @@ func (e *Explorer) Explore() (complete bool) {
 // ResourceStop, when set, is asked before every execution whether exploration must stop for lack
 // of a resource (the workers set it to their memory guard); a non-empty answer is reported as a cap.
 var ResourceStop func() string
+
+// LeakedTotal counts the threads that could not be ended when their execution was over (they stay
+// blocked in their bubble for the life of the worker, with everything they reference).
+var LeakedTotal int64
 
 func (e *Explorer) over() string {
 	if !e.RealStop.IsZero() && time.Now().After(e.RealStop) {
